@@ -21,9 +21,9 @@ def rows(rnd):
         if m.get('origin'): extra=' — '+m['origin']
         out.append('| %s | %s | %s%s |'%(k,m['property'],clause,extra))
     return out
-r1,r2,r3,r4,r5,r6,r7,r8=[rows(i) for i in range(1,9)]
+r1,r2,r3,r4,r5,r6,r7,r8,r9=[rows(i) for i in range(1,10)]
 def nm(r): return len(r),sum('missed at first' in x for x in r)
-(n1,m1),(n2,m2),(n3,m3),(n4,m4),(n5,m5),(n6,m6),(n7,m7),(n8,m8)=[nm(r) for r in (r1,r2,r3,r4,r5,r6,r7,r8)]
+(n1,m1),(n2,m2),(n3,m3),(n4,m4),(n5,m5),(n6,m6),(n7,m7),(n8,m8),(n9,m9)=[nm(r) for r in (r1,r2,r3,r4,r5,r6,r7,r8,r9)]
 own=open('/verif/mutants/RESULTS.txt').read().strip().split('\n')
 ownrows=[]
 for l in own:
@@ -139,6 +139,16 @@ dangling stash commit and validated like the others.
 | seed | property | detected by (scenario / clause) |
 |---|---|---|
 '''%(n8,n8-m8,m8)+'\n'.join(r8)+'''
+
+**Round 9** (%d changes; the authors worked from the CODE instead of from a property: each got one
+source file (or a small group), the texts of all properties that file serves, and the request to go
+through it function by function for overlooked spots — helpers, constants and masks, size
+computations, secondary methods, constructors, error and early-return paths — and to name the
+property each change breaks): %d detected as the checks stood, %d missed.
+
+| seed | property | detected by (scenario / clause) |
+|---|---|---|
+'''%(n9,n9-m9,m9)+'\n'.join(r9)+'''
 
 What changed in response, as a rule rather than case by case: every property whose code handles a
 length, a count or an index now has a *scale* scenario next to its small-scope product, in which
